@@ -38,6 +38,12 @@ func c17Program(name string, atoms *AtomTable) string {
 		return "mapscripts " + ph(ClsUserName, "map", "names") + " {\n" + ph(ClsIdent, "mstype", "mstypes") + " {\n" + cmd() + "\nif (" + flag() + ") {\n" + cmd() + "\n}\n}\n" + ph(ClsIdent, "mstype", "mstypes") + " [\nVAR_A, 1 {\n" + cmd() + "(\"hi$\")\n}\nVAR_B, 2: " + ph(ClsIdent, "target", "") + "\n]\n}\nmart " + ph(ClsUserName, "mart", "names") + " {\nITEM_A\nITEM_B\n}"
 	case "constants":
 		return "const C1 = 5\nconst C2 = C1 + 1\nscript " + ph(ClsUserName, "script", "names") + " {\n" + cmd() + "(C2)\ndo {\n" + cmd() + "\n} while (var(C1) < C2)\n}"
+	case "two-clashes":
+		// rejected input with clashes on two different labels: the reported one
+		// must not depend on a map's iteration order
+		return "text TA {\n\"a$\"\n}\ntext TB {\n\"b$\"\n}\ntext TB {\n\"c$\"\n}\ntext TA {\n\"d$\"\n}\nscript " + ph(ClsUserName, "script", "names") + " {\n" + cmd() + "\n}"
+	case "two-generated-clashes":
+		return "script S {\n" + cmd() + "(\"one$\")\n" + cmd() + "(\"two$\")\n}\ntext S_Text_1 {\n\"x$\"\n}\ntext S_Text_0 {\n\"y$\"\n}"
 	case "unknown-font":
 		return "text " + ph(ClsUserName, "text", "names") + " {\nformat(\"hello world\", \"nosuchfont\")\n}"
 	case "format":
@@ -444,7 +450,7 @@ func matchKnownC17(k *KnownFinding, f *Finding) bool {
 
 // RunC17 is the check of property C17.
 func RunC17(env *Env, rep *Report) {
-	progs := []string{"small", "small-loop", "small-switch", "flow", "switch", "texts", "mapscripts", "constants", "unknown-font", "format"}
+	progs := []string{"small", "small-loop", "small-switch", "flow", "switch", "texts", "mapscripts", "constants", "unknown-font", "format", "two-clashes", "two-generated-clashes"}
 	ctxs := c17Contexts()
 	rep.Technique = "symbolic execution of the real compiler (go/ssa) with Go map iteration order as an explicit nondeterministic choice (every permutation at every range-over-map site), package-level state compared before/after a compilation (one inductive step), and relational comparison of a statement compiled alone and in context"
 	rep.Explanation = "Bounded symbolic verification, not a proof. (a) Determinism: in the engine every Go map is an ordered association list and a 'range' over a map is a decision point; for each program of the list, each range-over-map site reached by the real code (discovered by a first run) is given every permutation of its entries, one site at a time, and the result (output or error text, with all names symbolic) must be identical to the canonical-order result. (b) Histories: the deep value of every package-level variable of the repository's packages is compared before and after a symbolic compilation and the compilation is repeated in the same engine heap; unchanged state + equal results is one inductive step that covers any number of earlier compilations. (c) Independence: each kind of top-level statement is compiled alone and before / after / between other statements (scripts with inline texts and movements, texts, a format() text under another font, mapscripts, mart, raw); its emitted block must be equal line by line. Counterexamples are confirmed on the native build (repeated runs in one process / alone vs in context)."
